@@ -34,7 +34,8 @@ FEATURES = ["where-alias", "where-complex", "groupby-alias", "groupby-selected-a
             "groupby-expr-alias", "on-criterion-alias",
             # clauses and terms beyond aliases: whatever the inner query consists of belongs inside its brackets, unchanged
             "for-update", "for-update-of-nowait", "having-subquery", "orderby-subquery", "select-subquery", "where-subquery-comparison",
-            "inner-cte", "join-using", "force-index", "prewhere", "rollup", "setop-orderby", "setop-limit", "groupby-subquery"]
+            "inner-cte", "join-using", "force-index", "prewhere", "rollup", "setop-orderby", "setop-limit", "groupby-subquery",
+            "setop-aliased-branches"]
 
 
 def R():
@@ -144,6 +145,9 @@ def build_inner(Q, feats, depth=0):
             q = q.orderby(t.id)
         if "setop-limit" in feats:
             q = q.limit(4)
+    if "setop-aliased-branches" in feats and not isinstance(q, r["_SetOperation"]):
+        # the operands carry aliases of their own (as_() or an automatic sq<n> from an earlier use): never printed inside the set operation
+        q = q.as_("lft").union(Q.from_(t).select(*([t.id] * max(1, len(q._selects)))).as_("rgt"))
     if "setop" in feats and not isinstance(q, r["_SetOperation"]):
         q = q.union(Q.from_(t).select(*([t.id] * max(1, len(q._selects)))).where(t.id.as_("swa") < 9))
     return q
@@ -214,11 +218,11 @@ def cases(tier, seed, shard, nshards):
     k = 0
     shapes = [[f] for f in FEATURES] + [["where-alias", "groupby-alias", "having-alias", "orderby-alias", "select-alias"],
                                         ["where-complex", "nested-in"], ["nested-from", "orderby-alias"], ["setop", "where-alias"],
-                                        ["join-on-alias", "where-alias", "limit"], []]
+                                        ["join-on-alias", "where-alias", "limit"], ["setop-aliased-branches", "where-alias"], []]
     for feats in shapes:
         for pos in POSITIONS:
             for d in DIALECT_CLASSES:
-                for mode in ("inline", "param"):
+                for mode in ("inline", "param", "as-keyword"):
                     k += 1
                     if k % nshards == shard:
                         yield {"feats": feats, "pos": pos, "d": d, "mode": mode}
@@ -226,7 +230,7 @@ def cases(tier, seed, shard, nshards):
     n = (30000 if tier == "quick" else 480000) // nshards
     for i in range(n):
         yield {"feats": sorted(rnd.sample(FEATURES, rnd.randint(2, 6))), "pos": rnd.choice(POSITIONS), "d": DIALECT_CLASSES[i % 6],
-               "mode": rnd.choice(["inline", "param"])}
+               "mode": rnd.choice(["inline", "param", "as-keyword"])}
 
 
 def render(o, d, mode):
@@ -234,6 +238,8 @@ def render(o, d, mode):
     ctx = contexts()[d]
     if mode == "param":
         ctx = ctx.copy(parameterizer=r["Parameterizer"]())
+    elif mode == "as-keyword":  # a flag the caller may set on the context: it holds for the whole tree or for none of it
+        ctx = ctx.copy(as_keyword=True)
     return o.get_sql(ctx)
 
 
@@ -288,7 +294,7 @@ def run_case(case, mon):
     else:
         needle = [("PUNCT", "(")] + ta + [("PUNCT", ")")]
     if alias:
-        needle = needle + [("IDENT", alias)]
+        needle = needle + ([("WORD", "AS")] if mode == "as-keyword" else []) + [("IDENT", alias)]
     i = find_sub(to, needle)
     nontrivial = bool(case["feats"])
     if i >= 0:
